@@ -76,6 +76,16 @@ func c14Cases() []c14Prog {
 	add("dump-data", `@dump(o, st)`, objData)
 	add("dump-nested", `@dump({a: {p: 1, q: 2}, b: {r: nil, s: true}})`, nil)
 	add("dump-4", `@dump(m4)`, objData)
+	// a large object (any shortening of what is shown must not depend on the order in which the entries are met)
+	bigData := func() map[string]any {
+		big := map[string]int{}
+		for i := 0; i < 70; i++ {
+			big[fmt.Sprintf("k%02d", (i*37)%70)] = i
+		}
+		return map[string]any{"big": big, "nest": map[string]any{"in": big}}
+	}
+	add("dump-70-keys", `@dump(big)`, bigData)
+	add("print-70-keys", `{{ big }}|@dump(nest)`, bigData)
 	// several failing entries at once
 	add("literal-two-failing", `{{ {a: zz, b: yy} }}`, nil)
 	add("literal-three-mixed", `{{ {a: 1, b: 1 / 0, c: "s" + 1} }}`, nil)
